@@ -198,3 +198,48 @@ Fixpoint turns (s : server) (sched : list (list bool)) : server * bool :=
     let '(s', done) := shut_down_sessions (progress s m) in
     if done then (s', true) else turns s' rest
   end.
+
+(* ------------------------------------------------------------------ *)
+(** * the source's call order (C10/Gen.v: [return_steps], [shutdown_steps]), interpreted *)
+
+(** [Server::return_listen_sockets], step by step, on the holders of one listening socket *)
+Definition ret_step (st : owners * bool) (c : nat) : owners * bool :=
+  let '(o, built) := st in
+  match c with
+  | 5 => (o, true)                                                  (* manifest from borrowed descriptors *)
+  | 6 => if old_w o && built then (mko (old_w o) true (new_w o), built) else st   (* only open descriptors can be sent *)
+  | 7 | 9 => (mko false (in_flight o) (new_w o), built)              (* the worker's copies closed *)
+  | _ => st                                                          (* 1-4: taken out of the proxies, still held *)
+  end.
+
+Definition run_return (steps : list nat) (o : owners) : owners :=
+  fst (fold_left ret_step steps (o, false)).
+
+(** [Server::shut_down_sessions], step by step *)
+Record sdst := mksd { sd_srv : server; sd_n : nat; sd_go : bool; sd_id : option nat; sd_ok : option nat; sd_done : bool }.
+
+Definition sd_step (st : sdst) (c : nat) : sdst :=
+  if negb (sd_go st) then st
+  else
+    let s := sd_srv st in
+    match c with
+    | 2 => mksd (mksrv (stopping s) (base s) (filter negb (sessions s)) (accepting s) (answers s))
+                (sd_n st) true (sd_id st) (sd_ok st) (sd_done st)
+    | 3 => mksd s (length (sessions s)) true (sd_id st) (sd_ok st) (sd_done st)
+    | 4 => mksd s (sd_n st) (sd_n st <=? base s) (sd_id st) (sd_ok st) (sd_done st)
+    | 5 => mksd (mksrv None (base s) (sessions s) (accepting s) (answers s)) (sd_n st) true (stopping s) (sd_ok st) (sd_done st)
+    | 6 => mksd s (sd_n st) true (sd_id st) (sd_id st) (sd_done st)
+    | 7 => mksd (mksrv (stopping s) (base s) (sessions s) (accepting s)
+                       (answers s ++ match sd_ok st with Some i => [i] | None => [] end))
+                (sd_n st) true (sd_id st) (sd_ok st) (sd_done st)
+    | 8 => mksd s (sd_n st) true (sd_id st) (sd_ok st) true
+    | _ => st
+    end.
+
+Definition run_shutdown (steps : list nat) (s : server) : server * bool :=
+  match stopping s with
+  | None => (s, false)
+  | Some _ =>
+    let st := fold_left sd_step steps (mksd s 0 true None None false) in
+    (sd_srv st, sd_done st)
+  end.
